@@ -130,6 +130,21 @@ theorem map_spec {S : SStore} (wf : WF S) (q : Query) (hq : ∀ k ∈ q.keys, k.
   unfold opMap sMatches sMatch
   rw [factQuery_enc wf q.keys hq, mapLoop_ok, filter_filter_imp _ _ (factMatch_prefix q)]
 
+/-- **nested map**: the outer map visits every match in key order, and for each of them the inner
+map visits every match of the (possibly outer-dependent) inner literal, in key order -/
+theorem map_nested_spec {So Si : SStore} (wfo : WF So) (wfi : WF Si) (qo : Query) (qi : Fact → Query)
+    (hqo : ∀ k ∈ qo.keys, k.Valid) (hqi : ∀ f, ∀ k ∈ (qi f).keys, k.Valid) :
+    opMapNested qo qi (enc So) (enc Si) =
+      .ok ((sMatches qo So).flatMap fun f => (0, f) :: (sMatches (qi f) Si).map fun g => (1, g)) := by
+  unfold opMapNested
+  rw [map_spec wfo qo hqo]
+  simp only
+  generalize sMatches qo So = fs
+  induction fs with
+  | nil => rfl
+  | cons f rest ih =>
+    simp only [nestLoop, map_spec wfi (qi f) (hqi f), ih, List.flatMap_cons, List.cons_append]
+
 /-- **count_up_to** (`FactCount limit`): `min limit #matches` -/
 theorem count_spec {S : SStore} (wf : WF S) (q : Query) (hq : ∀ k ∈ q.keys, k.Valid)
     (limit : Int) (hl : 0 ≤ limit) :
